@@ -355,6 +355,10 @@ func (s *Service) Partitions(ctx context.Context, expr *lql.Source, offset, limi
 		return nil, err
 	}
 
+	if offset < 0 || limit < 0 {
+		return nil, fmt.Errorf("offset and limit must not be negative, but offset=%d, limit=%d", offset, limit)
+	}
+
 	if limit > 1000 {
 		limit = 1000
 	}
